@@ -179,6 +179,21 @@ def resume_from_gzindex(ck, P):
         ck.decide(any(v == 0 for v, _ in wr), R, "flush_bytes:reset", "gzindex = 0 on completion", "flush_bytes no longer zeroes gzindex when the field is complete", where(fb))
         ck.decide(any(v is None and any(x[0] == "bin" and x[1].startswith("Add") for x in mir.walk(e)) for v, e in wr), R, "flush_bytes:advance", "gzindex += copied",
                   "flush_bytes no longer advances gzindex by the bytes it copied", where(fb))
+        # bytes handed to the pending buffer inside the loop are accounted in gzindex before the function can suspend
+        ext = [c.bb for c in fb.live_calls(r"pending::Pending::extend$")]
+        adv = {bi for bi, fp, root, rv, s in fb.field_writes() if fp[-1:] == ("gzindex",)}
+        susp = set()
+        for bi, si, lhs, rv, st in fb.assignments():
+            if lhs.get("l") == 0 and not lhs.get("p"):
+                e = fb.rvalue_expr(rv)
+                if e[0] == "agg" and "Break" in str(e):
+                    susp.add(bi)
+        if ck.anchor("suspension exit in flush_bytes", bool(susp), where(fb)) and ck.anchor("Pending::extend in flush_bytes", bool(ext), where(fb)):
+            leak = [b for b in ext if flow.reaches_avoiding(fb, [b], susp, cut_blocks=adv - {b})]
+            ck.decide(not leak, R, "flush_bytes:advance-before-suspend", "gzindex is advanced between every write to the pending buffer and a suspension",
+                      "flush_bytes can suspend after copying part of the field into the pending buffer without having advanced gzindex: "
+                      "the next call writes the same bytes again (duplicated header bytes; with small output chunks the header never completes)",
+                      where(fb, fb.blocks[leak[0]]["t"].get("line") if leak else None))
         lf = [1 for bi, fp, root, rv, s in fb.field_writes() if fp[-1:] == ("last_flush",) and atoms.cval(rv) == -1]
         ck.decide(bool(lf), R, "flush_bytes:suspend", "last_flush = -1 when output is exhausted", "flush_bytes no longer marks the suspension (last_flush = -1)", where(fb))
     # header CRC bytes: written only with room for both
@@ -208,6 +223,41 @@ def resume_from_gzindex(ck, P):
                   "the two header-CRC bytes can be written without room for both: a split write recomputes them from a changed running CRC", where(fn, c.line))
 
 
+def header_crc_once(ck, P, R="PAIR/header-crc-once"):
+    """flush_bytes can suspend (return Break) with part of a field written; it is then called again with the rest of
+    the field (from gzindex).  A running-CRC update from which a suspension exit is still reachable must therefore be
+    taken over the bytes actually written so far (the pending buffer), never over the caller's slice - the rest of that
+    slice is handed in, and summed, again."""
+    fb = P.fn(Z + "deflate::flush_bytes")
+    if not ck.anchor("fn flush_bytes", fb):
+        return
+    ck.use_fn(fb)
+    crcs = fb.live_calls(r"crc32::crc32$|crc32::\w+::crc32$|::crc32$")
+    if not ck.anchor("crc32 update in flush_bytes", bool(crcs), where(fb)):
+        return
+    susp = set()
+    for bi, si, lhs, rv, st in fb.assignments():
+        if lhs.get("l") == 0 and not lhs.get("p"):
+            e = fb.rvalue_expr(rv)
+            if e[0] == "agg" and str(e[2]) in ("Break", "1") or (e[0] == "agg" and "Break" in str(e)):
+                susp.add(bi)
+    if not ck.anchor("suspension exit (ControlFlow::Break) in flush_bytes", bool(susp), where(fb)):
+        return
+    n = 0
+    for i, c in enumerate(crcs):
+        a = fb.call_args(c)
+        data = a[1]
+        from_pending = bool(mir.calls_in(data, r"Pending::pending$"))
+        can_suspend_after = flow.reaches_avoiding(fb, [c.bb], susp)
+        n += 1
+        ck.decide(from_pending or not can_suspend_after, R, "flush_bytes:crc#%d" % i,
+                  "taken over the pending buffer" if from_pending else "no suspension can follow",
+                  "flush_bytes updates the header CRC over %s and can still suspend afterwards: the unwritten rest of the field is passed "
+                  "in again on the next call and enters the CRC twice (wrong FHCRC whenever a field is split across calls)"
+                  % mir.fmt(data, fb)[:80], where(fb, c.line))
+    ck.floor(R, n, 1)
+
+
 def run(ck):
     P = prog("K1")
     ck.configs.add("K1")
@@ -219,4 +269,5 @@ def run(ck):
         absent_and_get_header(ck, P, fn, regs)
     flag_bits(ck, P)
     resume_from_gzindex(ck, P)
+    header_crc_once(ck, P)
     ck.assumptions += ["rustc MIR", "arm regions", "host target; K1"]
